@@ -30,7 +30,8 @@ type LB struct {
 }
 
 func NewLB(targets []string) (*LB, error) {
-	ln, err := net.Listen("tcp", "127.0.0.1:0")
+	// on the cluster's own loopback address (see clusterIP)
+	ln, err := net.Listen("tcp", sameHost(targets[0]))
 	if err != nil {
 		return nil, err
 	}
@@ -135,7 +136,7 @@ func TestC18(t *testing.T) {
 		}
 		defer cl.Stop()
 		if !cl.WaitMembership(Deadline()) {
-			c.Fatalf("C18: %d nodes did not form a cluster", N)
+			Missf(c, "C18: %d nodes did not form a cluster", N)
 		}
 		victim := cl.Nodes[c.Pick("victim", N)]
 		manner := c.OneOf("manner", "shutdown", "kill")
@@ -348,7 +349,7 @@ func TestC18(t *testing.T) {
 		if !Eventually(Deadline(), served) {
 			c.Class("timing-retry")
 			if !Eventually(2*Deadline(), served) {
-				c.Fatalf("C18: after %s of %s requests do not succeed again from every survivor within %v", manner, victim.ID, 3*Deadline())
+				Missf(c, "C18: after %s of %s requests do not succeed again from every survivor within %v", manner, victim.ID, 3*Deadline())
 			}
 		}
 		c.Stepf("recovered %v after the loss", time.Since(t0))
